@@ -259,6 +259,28 @@ func (e *hwEnv) runCase(cs hwCase) hwOut {
 	if len(opts) > 0 {
 		pm["headers"] = opts
 	}
+	// every registered way to the same decoder: the format's own provider type, the generic `http` provider with
+	// `decoder:`, and (uri only) the inline `uris:` list instead of a file; streaming and preloaded
+	switch (cs.ID / 2) % 3 {
+	case 1:
+		pm["type"] = "http"
+		pm["decoder"] = map[string]string{"uri": "uri", "uripost": "uripost", "raw": "raw", "http/json": "jsonline"}[typ]
+		out.Via += " type=http+decoder"
+	case 2:
+		if typ == "uri" {
+			delete(pm, "file")
+			lines := []interface{}{}
+			for _, ln := range strings.Split(strings.TrimRight(file, "\n"), "\n") {
+				lines = append(lines, ln)
+			}
+			pm["uris"] = lines
+			out.Via += " uris-inline"
+		}
+	}
+	if (cs.ID/6)%2 == 1 {
+		pm["preload"] = true
+		out.Via += " preload"
+	}
 	prov, err := hwDecodeProvider(pm, yamlShape)
 	if err != nil {
 		out.Err = "provider: " + err.Error()
